@@ -441,7 +441,7 @@ def run(tier: str, seed: int) -> int:
         c["dirty"] = kw["dirty"]
         if strategy == "client" and i % 4 == 2:
             c["cfg"] = dict(c["cfg"], enable_custom_operations=True)  # the builder modules list the schema's types: another ordering that must not depend on set iteration
-        c["history"] = (i % 2 == 1) or tier == "thorough"
+        c["history"] = (i % 2 == 1) or (i % 4 == 2) or tier == "thorough"
         c["max_doc_chars"] = 20000  # few cases, real subprocesses: larger documents (more set-iteration sites per run) are affordable here
         cases.append(c)
     with ThreadPoolExecutor(max_workers=core.WORKERS) as ex:
